@@ -484,15 +484,17 @@ func (m Mesh) ScanPrimitivesParallelWithPoolSize(size int, f func(i int, p Primi
 
 		go func(start, size int) {
 			defer wg.Done()
+			// the scan helpers take the (exclusive) end of the range
+			end := start + size
 			switch m.topology {
 			case TriangleTopology:
-				m.scanTrisPrimitives(start, size, f)
+				m.scanTrisPrimitives(start, end, f)
 
 			case PointTopology:
-				m.scanPointPrimitives(start, size, f)
+				m.scanPointPrimitives(start, end, f)
 
 			case LineStripTopology:
-				m.scanLinePrimitives(start, size, f)
+				m.scanLinePrimitives(start, end, f)
 
 			default:
 				panic(fmt.Errorf("unimplemented topology: %s", m.topology.String()))
